@@ -64,12 +64,64 @@ def cache_key(text):
     return hashlib.sha256(text.encode()).hexdigest()
 
 
+_L1 = {}
+
+
+def _l1_key():
+    """identifies everything an obligation's text is generated from: every source file of the package under verification and
+    every file of the generator and the sidecar contracts"""
+    if "key" not in _L1:
+        import hashlib
+        h = hashlib.sha256()
+        roots = [os.path.join(REPO, "anytree"), os.path.join(VERIF, "pyvc"), os.path.join(VERIF, "contracts"), os.path.join(VERIF, "checks")]
+        for root in roots:
+            for dp, dn, fs in sorted(os.walk(root)):
+                dn.sort()
+                for f in sorted(fs):
+                    if f.endswith(".py"):
+                        h.update(os.path.relpath(os.path.join(dp, f), root).encode())
+                        with open(os.path.join(dp, f), "rb") as fh:
+                            h.update(fh.read())
+        _L1["key"] = h.hexdigest()[:24]
+    return _L1["key"]
+
+
+def _l1_load():
+    if "map" not in _L1:
+        d = os.path.join(CACHE, "byname", _l1_key())
+        m = {}
+        if os.path.isdir(d):
+            for f in os.listdir(d):
+                try:
+                    with open(os.path.join(d, f)) as fh:
+                        for line in fh:
+                            e = json.loads(line)
+                            m[e["name"]] = e
+                except Exception:
+                    pass
+        _L1["map"] = m
+    return _L1["map"]
+
+
 def discharge_cached(obls, tier, seed, use_cache=True):
-    """results of `unsat` are cached by the SHA-256 of the exact SMT-LIB text (which is generated from the current
-    source), so an unchanged obligation is not solved twice across the checks of one session"""
+    """results of `unsat` are cached (a) by the SHA-256 of the exact SMT-LIB text (which is generated from the current
+    source), so an unchanged obligation is not solved twice across the checks of one session, and (b) - quick tier only - by
+    obligation name under a key that hashes every source file of the package, the generator, the sidecar contracts and the
+    checks: with all of those unchanged the same name denotes the same text, and serialising it again is skipped (the
+    dependency closure makes every check carry several thousand shared obligations)"""
     os.makedirs(CACHE, exist_ok=True)
     todo = []
+    l1 = _l1_load() if (use_cache and tier != "thorough") else {}
+    names = {}
     for ob in obls:
+        names[ob.name] = names.get(ob.name, 0) + 1
+    fresh_l1 = []
+    for ob in obls:
+        if l1 and ob.kind not in GUARD_KINDS and names[ob.name] == 1 and ob.name in l1:
+            e = l1[ob.name]
+            ob.text, ob.key = "", e.get("key", "")
+            ob.result, ob.backend, ob.time, ob.all_results, ob.cached = "unsat", e["backend"], e["time"], [], True
+            continue
         ob.text = solve.to_smt2(ob)
         ob.key = cache_key(ob.text)
         path = os.path.join(CACHE, ob.key[:2], ob.key)
@@ -91,6 +143,16 @@ def discharge_cached(obls, tier, seed, use_cache=True):
             os.makedirs(d, exist_ok=True)
             with open(os.path.join(d, ob.key), "w") as f:
                 json.dump({"backend": ob.backend, "time": ob.time, "name": ob.name}, f)
+    if use_cache and tier != "thorough":
+        d = os.path.join(CACHE, "byname", _l1_key())
+        os.makedirs(d, exist_ok=True)
+        new = [ob for ob in obls if ob.result == "unsat" and ob.kind not in GUARD_KINDS and names[ob.name] == 1 and ob.name not in l1
+               and getattr(ob, "key", "")]
+        if new:
+            with open(os.path.join(d, "%d.jsonl" % os.getpid()), "a") as f:
+                for ob in new:
+                    f.write(json.dumps({"name": ob.name, "backend": ob.backend, "time": ob.time, "key": ob.key}) + "\n")
+                    l1[ob.name] = {"name": ob.name, "backend": ob.backend, "time": ob.time, "key": ob.key}
     return obls
 
 
